@@ -495,6 +495,35 @@ def run(ctx):
     # ---- C06.t5 the reply that is proved is the reply that arrived: how a handshake response is framed, dispatched (only while one is
     # pending) and cut out of its packet - all of it, `packet[8:]`, so that the length test above sees over-long replies - is C05's
     # subject; its obligations are re-run here as premises
+    # ---- C06.e which credentials are offered: the caller's (hex text turned into bytes) when both are given, the stored ones otherwise -
+    # a re-authentication inside send() passes none, the cloud hands out hex text
+    ls_ = summarize(prog, la)
+    cred_calls = [t for n, t in ls_.ta.terms_at.items() if isinstance(n, ast.Call) and isinstance(n.func, ast.Attribute) and n.func.attr == "authenticate"
+                  and t is not None and t[0] == "call" and len(t[2]) == 2]
+    ctx.count("credential_sites", len(cred_calls))
+    if cred_calls and len(la.args) >= 2:
+        from ..facts import simplify as _simp
+        tok_, key_ = ("param", la.args[0]), ("param", la.args[1])
+        selfp = ("param", la.params[0])
+
+        def conv(x):
+            return ("ite", ("call", ("ext", "isinstance"), (x, ("global", "str")), ()), ("call", ("ext", "bytes.fromhex"), (x,), ()), x)
+
+        def same(a, b):
+            return strip(a) == strip(b) or show(strip(a)) == show(strip(b))
+        okc = True
+        why = ""
+        for t in cred_calls:
+            for facts_ in ([("cmp", "is", tok_, ("const", None))], [("cmp", "is", key_, ("const", None))]):
+                got = [strip(_simp(x, facts_)) for x in t[2]]
+                if got != [("attr", selfp, "_token"), ("attr", selfp, "_key")]:
+                    okc, why = False, f"without arguments it offers `{show(got[0])[:40]}`, `{show(got[1])[:40]}` instead of the stored token and key"
+            both = [("cmp", "is not", tok_, ("const", None)), ("cmp", "is not", key_, ("const", None))]
+            got = [strip(_simp(x, both)) for x in t[2]]
+            if not (same(got[0], conv(tok_)) and same(got[1], conv(key_))):
+                okc, why = False, why or f"with arguments it offers `{show(got[0])[:50]}`, `{show(got[1])[:50]}` instead of the given token and key as bytes"
+        ctx.ob("C06.e", la.qual, okc, "the handshake offers the given credentials (hex text as bytes), or the stored ones when none are given", func=la.qual, file=file,
+               construct="self._protocol.authenticate(token, key)", fail=f"LAN.authenticate offers the wrong credentials: {why}")
     from . import c04, c05, c07
     ctx.import_rules(c05, "t5")
     # ... it reaches the handshake through the V3 stream reassembly (a reply that is never queued surfaces as a timeout, not as an
